@@ -56,9 +56,11 @@ def flatten(module, fname, depth=0, seen=()):
             if r and isinstance(st.targets[0], ast.Name):
                 assigns[st.targets[0].id] = r
         elif isinstance(st, ast.If):
-            r = _recogniser(st.test, assigns)
-            if r is not None:
-                steps.append(r)
+            tests = st.test.values if isinstance(st.test, ast.BoolOp) and isinstance(st.test.op, ast.Or) else [st.test]
+            for t_ in tests:
+                r = _recogniser(t_, assigns)
+                if r is not None:
+                    steps.append(r)
         elif isinstance(st, ast.Try):
             for x in st.body:
                 for c in ast.walk(x):
@@ -127,6 +129,37 @@ def check(ctx):
         ctx.check(bool(calls) and all(call_name(c) == conv for c in calls), "T6-context", f,
                   "%s uses %s" % (qual, conv), "%s must convert its literal with %s, found %s"
                   % (qual, conv, sorted({call_name(c) for c in calls})))
+    # quote stripping: the value of a quoted literal is the text between its enclosing quotes
+    ctx.rule("T9-strip", "a literal recognised by REO_Quoted / REO_QuotedSingle is returned with exactly its own enclosing quote character stripped")
+    nstrip = 0
+    for name, fn in bm.funcs.items():
+        if not (name.startswith("Convert2") or name == "StripQuotes"):
+            continue
+        for st in ast.walk(fn):
+            if not isinstance(st, ast.If):
+                continue
+            tests = st.test.values if isinstance(st.test, ast.BoolOp) and isinstance(st.test.op, ast.Or) else [st.test]
+            recs = [_recogniser(t_, {}) for t_ in tests]
+            recs = [r for r in recs if r in ("REO_Quoted", "REO_QuotedSingle")]
+            if not recs:
+                continue
+            for r_ in [x for x in st.body if isinstance(x, ast.Return) and x.value is not None]:
+                v = r_.value
+                nstrip += 1
+                if isinstance(v, ast.Call) and isinstance(v.func, ast.Attribute) and v.func.attr == "strip" and src(v.func.value) == "text":
+                    chars = const_str(v.args[0]) if v.args else None
+                    want_chars = {"REO_Quoted": '"', "REO_QuotedSingle": "'"}
+                    ok = len(recs) == 1 and chars == want_chars[recs[0]]
+                    ctx.check(ok, "T9-strip", r_, "%s: %s -> text.strip(%r)" % (name, "|".join(recs), chars),
+                              "stripping a set of characters that is not exactly the literal's own enclosing quote removes quote "
+                              "characters that belong to the content (e.g. \"'tis\" loses its apostrophe)")
+                elif isinstance(v, ast.Call) and call_name(v) == "StripQuotes":
+                    ctx.ok("T9-strip", r_, "%s delegates quote stripping to StripQuotes" % name)
+                elif isinstance(v, ast.Subscript) and src(v) == "text[1:-1]":
+                    ctx.ok("T9-strip", r_, "%s: text[1:-1]" % name)
+                else:
+                    ctx.bad("T9-strip", r_, "%s: %s" % (name, src(v)), "unrecognised way of removing the enclosing quotes")
+    ctx.floor("T9-strip:sites", nstrip, 2)
     # regex facts
     unpack = {}
     for name, fn in bm.funcs.items():
